@@ -295,12 +295,21 @@ def gen_case(rng, size=1.0, force=None):
             if rng.random() < 0.7:
                 regs.append(gen_region(rng, c, len(contigs[c]), variants[c]))
         opts["regions"] = regs or [real[0]]
-    elif r < 0.32:
-        # several regions per contig and/or contigs out of order: overlapping, touching, disjoint, unsorted
+    elif r < 0.42:
+        # several regions per contig and/or contigs out of order: overlapping, touching, disjoint, unsorted, NESTED
         regs = []
         for c in rng.sample(real, len(real)):
             for _ in range(rng.randrange(1, 4)):
                 regs.append(gen_region(rng, c, len(contigs[c]), variants[c]))
+            if rng.random() < 0.6:
+                # a region strictly inside another one of the same contig (given before or after it)
+                L = len(contigs[c])
+                a = rng.randrange(1, max(2, L // 3)); b = rng.randrange(2 * L // 3, L + 1)
+                x = rng.randrange(a + 1, max(a + 2, (a + b) // 2)); y = rng.randrange(x + 1, max(x + 2, b - 1))
+                pair = [f"{c}:{a}-{b}" if rng.random() < 0.7 else c, f"{c}:{x}-{y}"]
+                if rng.random() < 0.5:
+                    pair.reverse()
+                regs += pair
         opts["regions"] = regs
     if ignore_read_groups and len(vcf_samples) > 1 and rng.random() < 0.25:
         # every selected sample then works on ALL reads: the later sample overwrites the earlier one's decisions
